@@ -459,37 +459,23 @@ impl ISocket for RouterSocket {
 
       let mut set_target_guard = self.current_send_target.lock().await;
 
-      match conn_iface.send_message(msg).await {
+      // Identity and delimiter go out as one batch: dropping this future between two separate
+      // sends would leave a dangling identity frame on the connection with no transaction open,
+      // and the peer would glue it to the next message.
+      let mut head_frames = FrameBatch::new();
+      head_frames.push(msg);
+      if !self.framing.is_manual() {
+        let mut delimiter_frame = Msg::new();
+        delimiter_frame.set_flags(MsgFlags::MORE);
+        head_frames.push(delimiter_frame);
+      }
+      match conn_iface.send_multipart(head_frames).await {
         Ok(()) => {
-          let delimiter_result = if !self.framing.is_manual() {
-            let mut delimiter_frame = Msg::new();
-            delimiter_frame.set_flags(MsgFlags::MORE);
-            conn_iface.send_message(delimiter_frame).await
-          } else {
-            Ok(())
-          };
-          match delimiter_result {
-            Ok(()) => {
-              *set_target_guard = Some(ActiveFragmentedSend {
-                target_endpoint_uri,
-                _permit: permit,
-              });
-              Ok(())
-            }
-            Err(e) => {
-              drop(set_target_guard);
-              drop(permit);
-              if router_mandatory_opt {
-                Err(if matches!(e, ZmqError::ConnectionClosed) {
-                  ZmqError::HostUnreachable("Peer disconnected during delimiter send".into())
-                } else {
-                  e
-                })
-              } else {
-                Ok(())
-              }
-            }
-          }
+          *set_target_guard = Some(ActiveFragmentedSend {
+            target_endpoint_uri,
+            _permit: permit,
+          });
+          Ok(())
         }
         Err(e) => {
           drop(set_target_guard);
